@@ -24,6 +24,7 @@ CONSTANTS
   EditVals = {}
   Depth = 0
 INVARIANT ParseOfEncodeIsForm
+INVARIANT QuotedRoundTrip
 INVARIANT LimitsExactAtThreshold
 INVARIANT ContentExact
 INVARIANT SizeFailureSticks
